@@ -48,7 +48,7 @@ MC_RUNS = [  # (module, quick cfg, thorough cfg, label, actions that must have b
      ["Add", "AddMembers", "MoveStash", "BuildM2P", "BuildP2M", "BuildBoth"]),
     ("ContainersExtStash", "MCContainersExtStash.cfg", "MCTContainersExtStash.cfg",
      "ItemStash with blocks, growth, clear, automatic collection at the start and in the middle of a block (scaled constants)",
-     ["AddItem", "RemoveItem", "GarbageCollect", "Clear"]),
+     ["AddPlain", "AddAfterGC", "AddMidGC", "RemoveItem", "GarbageCollect", "Clear"]),
 ]
 
 SIM_RUNS = [  # (module, cfg, kind, behaviours quick, behaviours thorough, depth)
@@ -62,6 +62,9 @@ SIM_RUNS = [  # (module, cfg, kind, behaviours quick, behaviours thorough, depth
 ]
 GEN_RUNS = [  # breadth first, both tiers: the empty stash and every single call, x 3 builders x moved or not
     ("ContainersExtRelMap", "GenContainersExtRelMap1.cfg", "xrelmap"),
+]
+GEN_RUNS_THOROUGH = [  # every stash made by two calls
+    ("ContainersExtRelMap", "GenContainersExtRelMap2.cfg", "xrelmap"),
 ]
 AUTO_CFG = "GenContainersExtStashAuto.cfg"
 
@@ -139,7 +142,7 @@ def _make_cases(ctx, j, payloads, rng):
             variants = ["u32low", "u64low"]
             if n % 4 == 0:
                 variants.append("u32mid")
-            if n % (12 if quick else 2) == 1:         # 4 MiB chunks: walking them costs
+            if n % (12 if quick else 4) == 1:         # 4 MiB chunks: walking them costs
                 variants += ["u32top", "u64big"]
         elif fam == "xsmall":
             variants = ["u64", "u32"]
@@ -185,10 +188,13 @@ def _sig(c, r, build):
 def _replay(ctx, cases, builds=("ndebug", "assert")):
     bins = prebuild()
     byid = {c["id"]: c for c in cases}
-    for b in builds:
+
+    def one(b):
         t0 = time.time()
-        res = vlib.replay_cases(bins[b], cases, timeout=2400)
+        res = vlib.replay_cases(bins[b], cases, timeout=2400, nproc=max(2, vlib.NCPU // len(builds)))
         vlib.log("[C15ext] %d cases replayed on the %s build in %.1fs" % (len(cases), b, time.time() - t0))
+        return res
+    for b, res in zip(builds, vlib.parallel(*[(lambda b=b: one(b)) for b in builds])):
         if len(res) != len(cases):
             raise vlib.ModelFailure("ext replay returned %d results for %d cases" % (len(res), len(cases)))
         for r in res:
@@ -281,7 +287,7 @@ def run_part(ctx):
         jobs.append(dict(kind="mc", mod=mod, cfg=qcfg if quick else tcfg, label=label, acts=acts))
     for mod, cfg, fam, nq, nt, depth in SIM_RUNS:
         jobs.append(dict(kind="sim", mod=mod, cfg=cfg, label=cfg[:-4], fam=fam, n=nq if quick else nt, depth=depth))
-    for mod, cfg, fam in GEN_RUNS:
+    for mod, cfg, fam in GEN_RUNS + ([] if quick else GEN_RUNS_THOROUGH):
         jobs.append(dict(kind="gen", mod=mod, cfg=cfg, label=cfg[:-4], fam=fam))
     t0 = time.time()
     # TLC runs alive at the same time (VERIF_TLC_JOBS lowers it on a shared machine); the harness builds run beside them
